@@ -18,6 +18,16 @@ for pid, P in props.PROPS.items():
                     if key not in todo:
                         todo.append(key)
                         variants.add(key[1])
+# hooks that must run before linking (objects placed on the link line) and data/tool preparation
+for pid, P in props.PROPS.items():
+    stages = P["stages"]("quick") if callable(P["stages"]) else P["stages"]
+    done = set()
+    for st in stages:
+        for hook in ("prebuild", "prepare"):
+            h = st.get(hook)
+            if h and h not in done:
+                done.add(h)
+                h(st, "quick")
 for v in sorted(variants):
     build.build_lib(v)
     build.build_engine(v)
